@@ -241,6 +241,85 @@ Section ScanProofs.
     - exact F.
     - exact C.
   Qed.
+  (* ---- the bounds-checked model never takes a panic branch under the guards ---- *)
+  Lemma mp_c_eq j : j + p <= m -> mp_c score sq p j = Some (MP j).
+  Proof. intro H. unfold mp_c. fold m. replace (j + p <=? m) with true by (symmetry; apply Nat.leb_le; exact H). reflexivity. Qed.
+
+  Lemma incr_c_eq x : mpos x + p < m -> incr_c score sq p x = Some (INCR x).
+  Proof.
+    intro H. unfold incr_c, INCR, incr. rewrite (nth_error_nth' sq 0%N) by (fold m; lia). reflexivity.
+  Qed.
+
+  Lemma find_min_loop_c_eq n : forall a c, mpos c + n + p <= m ->
+    find_min_loop_c score sq p n a c = Some (find_min_loop score sq p n a c).
+  Proof.
+    induction n as [|n IH]; intros a c H; [reflexivity|].
+    cbn [find_min_loop_c find_min_loop]. rewrite incr_c_eq by lia. fold INCR. apply IH.
+    change (mpos (INCR c)) with (mpos c + 1). lia.
+  Qed.
+
+  Lemma find_min_c_eq a b : a <= b -> b + p <= m -> find_min_c score sq p a b = Some (find_min score sq p a b).
+  Proof.
+    intros Hab Hb. unfold find_min_c, find_min. rewrite mp_c_eq by lia. fold MP.
+    apply find_min_loop_c_eq. rewrite mpos_MP. lia.
+  Qed.
+
+  Lemma scan_step_c_eq i st : Inv i st -> i + 1 <= m - k ->
+    scan_step_c score sq k p st (i + 1) = Some (scan_step score sq k p st (i + 1)).
+  Proof.
+    destruct st as [[mn ep] acc]. intros [Eep _] Hi. unfold scan_step_c, scan_step.
+    rewrite incr_c_eq by (rewrite Eep, mpos_MP; lia). fold INCR.
+    destruct (mpos mn <? i + 1); [|destruct (mval (INCR ep) <? mval mn)%N; reflexivity].
+    rewrite find_min_c_eq by lia. reflexivity.
+  Qed.
+
+  Lemma fold_c_eq n : forall a st, Inv a st -> a + n <= m - k ->
+    fold_c score sq k p (seq (a + 1) n) st = Some (fold_left (scan_step score sq k p) (seq (a + 1) n) st).
+  Proof.
+    induction n as [|n IH]; intros a st H Hn; [reflexivity|].
+    cbn [seq fold_c fold_left]. rewrite scan_step_c_eq by (auto; lia).
+    replace (S (a + 1)) with ((a + 1) + 1) by lia. apply IH; [|lia]. apply Inv_step; [exact H|lia].
+  Qed.
+
+  Lemma synth_c_eq cps : fwd_ok cps -> synth_c sq k cps = Some (synth sq k cps).
+  Proof.
+    induction cps as [|[s x] r IH]; intro H; [destruct H|].
+    cbn [fwd_ok] in H. destruct H as [_ H]. destruct r as [|[s2 x2] r'].
+    - destruct H as [H1 _]. cbn [synth_c synth]. unfold sub_usize. fold m.
+      replace (s <=? m) with true by (symmetry; apply Nat.leb_le; lia). reflexivity.
+    - destruct H as [[H1 _] Hr]. specialize (IH Hr).
+      change (synth_c sq k ((s, x) :: (s2, x2) :: r')) with
+        (match sub_usize (s2 + k - 1) s, synth_c sq k ((s2, x2) :: r') with
+         | Some ln, Some t => Some (mkS (mkmer x) (mpos x) s ln :: t)
+         | _, _ => None
+         end).
+      rewrite IH. unfold sub_usize. replace (s <=? s2 + k - 1) with true by (symmetry; apply Nat.leb_le; lia).
+      reflexivity.
+  Qed.
+
+  Lemma checked_run wl :
+    match find_min_c score sq p 0 (k - p), mp_c score sq p (k - p) with
+    | Some min_pos, Some end_pos =>
+        match fold_c score sq k p (seq 1 (m - k)) (min_pos, end_pos, [(0, min_pos)]) with
+        | Some (_, _, acc) => option_map (map (cast_iv wl)) (synth_c sq k (rev acc))
+        | None => None
+        end
+    | _, _ => None
+    end = Some (map (cast_iv wl) (scan_raw score sq k p)).
+  Proof.
+    rewrite find_min_c_eq, mp_c_eq by lia.
+    change (find_min score sq p 0 (k - p), MP (k - p), [(0, find_min score sq p 0 (k - p))])
+      with (scan_init score sq k p).
+    pose proof (fold_c_eq (m - k) 0 _ Inv_init) as E. cbn [Nat.add] in E. change (0 + 1) with 1 in E.
+    rewrite E by lia. clear E.
+    pose proof (Inv_fold (m - k) 0 _ Inv_init) as H. cbn [Nat.add] in H. specialize (H (Nat.le_refl _)).
+    change (0 + 1) with 1 in H. unfold scan_raw, min_positions. fold m.
+    destruct (fold_left (scan_step score sq k p) (seq 1 (m - k)) (scan_init score sq k p)) as [[mn ep] acc].
+    destruct H as [_ [s [r [Eacc [Hacc [H1 [H2 [H3 H4]]]]]]]]. subst acc.
+    destruct (rev_acc_ok s mn r Hacc) as [Hf _].
+    { unfold last_ok. split; [lia|]. split; [lia|]. split; [lia|]. intros j Hj. apply H4. lia. }
+    rewrite synth_c_eq by exact Hf. reflexivity.
+  Qed.
 End ScanProofs.
 
 (* ---- consequences of the chain clauses, for ANY list of intervals (also used for the checker) ---- *)
@@ -346,6 +425,27 @@ Proof.
   rewrite E. split; [exact OK|]. apply (scan_ok_covered score sq k p). exact OK.
 Qed.
 
+(* The model with every index operation and subtraction checked (the one the correspondence driver runs)
+   coincides with the total model on ALL inputs: under the four guards no inner panic branch is taken, and
+   outside them both panic. *)
+Theorem scan_checked_eq (score : dna -> N) sq k p wl : scan_checked_w score sq k p wl = scan_w score sq k p wl.
+Proof.
+  unfold scan_checked_w, scan_w, scan_guard, sub_usize.
+  destruct (k <=? length sq) eqn:E1; [|reflexivity]. destruct (N.of_nat (length sq) <? 2 ^ 32)%N; [|reflexivity].
+  cbn [andb]. destruct (1 <=? p) eqn:E3; [|now rewrite andb_false_r]. destruct (p <=? k) eqn:E2; [|reflexivity].
+  cbn [andb]. apply Nat.leb_le in E1, E2, E3. apply checked_run; assumption.
+Qed.
+
+Lemma scan_checked_scan (score : dna -> N) sq k p : scan_checked score sq k p = scan score sq k p.
+Proof. apply scan_checked_eq. Qed.
+
+(* C07 for the checked model: no panic and clauses (a)-(f) *)
+Theorem scan_checked_spec (score : dna -> N) sq k p :
+  1 <= p -> p <= k -> k <= length sq -> (N.of_nat (length sq) < 2 ^ 32)%N -> (N.of_nat (2 * k - p) < 2 ^ 16)%N ->
+  exists ivs, scan_checked score sq k p = Some ivs /\
+              scan_ok score sq k p (map iv_nat ivs) /\ covered_once sq k (map iv_nat ivs).
+Proof. rewrite scan_checked_scan. apply scan_spec. Qed.
+
 (* the deprecated wrapper: the scan under the permutation score, keeping (bucket as u16, start, len) *)
 Theorem simple_scan_spec sq k p perm rcmode :
   1 <= p -> p <= 8 -> p <= k -> k <= length sq -> (N.of_nat (length sq) < 2 ^ 32)%N -> (N.of_nat (2 * k - p) < 2 ^ 16)%N ->
@@ -357,5 +457,7 @@ Proof.
   intros Hp Hp8 Hpk Hkm H32 H16.
   destruct (scan_spec (perm_score perm rcmode) sq k p Hp Hpk Hkm H32 H16) as [ivs [E [OK _]]].
   exists ivs. split; [exact E|]. split; [exact OK|]. unfold simple_scan.
-  replace (p <=? 8) with true by (symmetry; apply Nat.leb_le; exact Hp8). rewrite E. reflexivity.
+  replace (p <=? 8) with true by (symmetry; apply Nat.leb_le; exact Hp8).
+  rewrite scan_checked_scan, E. reflexivity.
 Qed.
+
